@@ -11,6 +11,7 @@ ASSUMPTIONS = ["every crash point / power-loss image is run-time behaviour of SQ
 def run(rep, W, ctx):
     S.s_sql_closed(rep, W)
     WR.c04(rep, W)
+    S.s_failstop_all(rep, W)          # a failed storage step is never retried / patched up inside the transaction
     S.s_txn2(rep, W)
     for opn in ("add_version", "add_snapshot"):
         S.s_txn1(rep, W, W.op(opn))
